@@ -30,6 +30,10 @@ def regen(chk: core.Check) -> bool:
     if not g2["ok"]:
         chk.obligation_broken("translator", "translate the helix kernels / properties / constructors of helix.py into Gen/HelixProps.lean", g2["error"])
         return False
+    g3 = gen.gen_awkpy()
+    if not g3["ok"]:
+        chk.obligation_broken("translator", "translate the awkward-side wiring (_extract_index, _flat_to_numpy, _awk_change_pivot, re-nesting loops, pivot broadcast) into Gen/AwkPy.lean", g3["error"])
+        return False
     chk.coverage["helix_props_translation"] = {k: (v if not isinstance(v, (dict, list)) or len(str(v)) < 300 else str(v)[:300]) for k, v in g2["info"].items()} if isinstance(g2["info"], dict) else str(g2["info"])[:300]
     return True
 
